@@ -809,7 +809,7 @@ pub struct RecActions {
     /// no depth limit catches)
     pub count: usize,
 }
-pub const ACTION_LIMIT: usize = 50_000;
+pub const ACTION_LIMIT: usize = 5_000;
 impl<'t> UserActionsTrait<'t> for RecActions {
     fn call_semantic_action_for_production_number(
         &mut self,
